@@ -5,10 +5,11 @@ Cfg(loop, pace, place, tps) ==
     [kind |-> loop[1], wi |-> loop[2], it |-> loop[3], wt |-> loop[4], tp |-> loop[5],
      sched |-> pace[1], tnum |-> pace[2], tden |-> pace[3], tunit |-> pace[4], runit |-> pace[5],
      clients |-> place[1], idx |-> place[2], total |-> place[3], ramp |-> place[4],
-     tps |-> tps, client |-> place[2], task |-> "t"]
+     tps |-> tps, client |-> (IF Len(place) >= 5 THEN place[5] ELSE place[2]), task |-> "t", rc |-> 0]
 
 (* what the track loader / the exact arithmetic of the conformance runs require of a configuration *)
-Valid(c) == /\ PD(c) > 0 /\ c.idx < c.total /\ c.clients <= c.total
+Valid(c) == /\ PD(c) > 0 /\ c.clients <= c.total
+            /\ (c.ramp > 0 => c.idx < c.total)      \* ramp-up is not combined with an over-committed element
             /\ (c.ramp > 0 => (c.kind = "time" /\ c.ramp <= c.wt))
             /\ (c.ramp * c.idx) % c.total = 0
             /\ (c.sched # "unthrottled" => \A w \in (Weights \cup {1}) \ {0} : (w * c.clients * c.tps * c.tden) % c.tnum = 0)
@@ -28,17 +29,38 @@ PoiConv(tn, td) == <<"poisson", tn, td, "ops", "docs">>
 
 Single == <<1, 0, 1, 0>>
 
+(* places derived from the declaration of a schedule element: <<clients of the sub-task, idx, total, ramp, executing client>> *)
+ElemPlace(e, j, i, ramp) == LET pl == Placement(e, j, i) IN <<pl.clients, pl.idx, pl.total, ramp, pl.executes>>
+E22  == [cap |-> 0, clients |-> <<2, 2>>]        \* parallel { a: 2 clients, b: 2 clients }
+E121 == [cap |-> 0, clients |-> <<1, 2, 1>>]
+E111over2 == [cap |-> 2, clients |-> <<1, 1, 1>>] \* over-committed: 3 one-client tasks on 2 clients
+E22over2  == [cap |-> 2, clients |-> <<2, 2>>]
+
+(* runners that expose completed / percent_completed *)
+WithRc(S, K) == {[c EXCEPT !.rc = k] : c \in S, k \in K}
+WithRcLate(S) == {[c EXCEPT !.rc = TotalIt(c) + 3] : c \in {x \in S : x.kind = "iter"}}   \* never completes within the iterations
+
 (* ---- C04, quick: every pacing / unit variant, service times up to 2*interval+1 ---- *)
 C04QuickConfigs ==
     Mk(IterLoops({0, 1}, {2}) \cup TimeLoops({2}, {3}),
        {Unthrottled, Det(1, 2), Poi(1, 2), DetDocs(1, 2), DetConv(1, 2), DetAbort(1, 2)}, {Single}, {1})
+    \* 1 tick = 1/1024 s, 4 ops/s: a client that comes back 0, 1, 2 ticks (< 1 ms .. 2 ms) before its next scheduled time
+    \cup Mk(IterLoops({0}, {3}), {Det(4, 1)}, {Single}, {1024})
+    \* over-committed element: the third one-client task is executed by client 0
+    \cup Mk(IterLoops({1}, {2}), {Unthrottled}, {ElemPlace(E111over2, 3, 0, 0)}, {1})
 C04QuickSvcs == {0, 1, 2, 5}
 
 (* ---- C05, quick: loop-control boundaries, clients, ramp-up ---- *)
 C05QuickConfigs ==
-    Mk(IterLoops({0, 1, 2}, {1, 2, 3}), {Unthrottled, Det(1, 1), Poi(1, 1)}, {Single, <<2, 1, 2, 0>>}, {1})
-    \cup Mk(TimeLoops({0, 1, 2, 3}, {1, 2, 3}), {Unthrottled, Det(1, 1)}, {Single, <<2, 1, 2, 0>>, <<2, 1, 2, 2>>, <<1, 1, 2, 2>>}, {1})
+    Mk(IterLoops({0, 1, 2}, {1, 2}), {Unthrottled, Det(1, 1), Poi(1, 1)}, {Single, <<2, 1, 2, 0>>}, {1})
+    \cup Mk(IterLoops({0, 2}, {3}), {Unthrottled, Det(1, 1)}, {Single}, {1})
+    \cup Mk(TimeLoops({0, 1, 2, 3}, {1, 3}), {Unthrottled, Det(1, 1)}, {Single, <<2, 1, 2, 0>>, <<2, 1, 2, 2>>, <<1, 1, 2, 2>>}, {1})
     \cup Mk(TimeLoops({2}, {3}), {Poi(1, 1)}, {<<2, 1, 2, 2>>}, {1})
+    \* ramp-up inside a parallel element of two two-client tasks / three tasks
+    \cup Mk(TimeLoops({4}, {2}), {Unthrottled, Det(1, 1)}, {ElemPlace(E22, 1, 1, 4), ElemPlace(E22, 2, 0, 4), ElemPlace(E22, 2, 1, 4), ElemPlace(E121, 2, 1, 4)}, {1})
+    \* runner with a completion API: never complete within the iterations / complete at its 2nd call
+    \cup WithRcLate(Mk(IterLoops({0, 1}, {2}), {Unthrottled, Det(1, 1)}, {Single}, {1}))
+    \cup WithRc(Mk(IterLoops({1}, {2}) \cup TimeLoops({1}, {2}), {Unthrottled}, {Single}, {1}), {2})
 C05QuickSvcs == {0, 1, 3}
 
 (* ---- thorough ---- *)
@@ -46,6 +68,8 @@ C04ThoroughConfigs ==
     Mk(IterLoops({0, 1}, {2, 3}) \cup TimeLoops({0, 2}, {3}) \cup TimeLoops({2}, {4}),
        {Unthrottled, Det(1, 2), Poi(1, 2), DetDocs(1, 2), DetConv(1, 2), DetAbort(1, 2)},
        {Single, <<2, 1, 2, 0>>}, {1})
+    \cup Mk(IterLoops({0, 1}, {3}), {Det(4, 1), Det(8, 1)}, {Single, <<2, 1, 2, 0>>}, {1024})
+    \cup Mk(IterLoops({1}, {2}), {Unthrottled, Det(1, 2)}, {ElemPlace(E111over2, 3, 0, 0), ElemPlace(E22over2, 2, 1, 0)}, {1})
 C04ThoroughSvcs == {0, 1, 2, 3, 5}
 
 C05ThoroughConfigs ==
@@ -53,6 +77,10 @@ C05ThoroughConfigs ==
     \cup Mk(TimeLoops({0, 1, 2, 3, 4}, {1, 2, 3, 4}), {Unthrottled, Det(1, 1), Det(1, 2)},
             {Single, <<2, 1, 2, 0>>, <<2, 1, 2, 2>>, <<1, 1, 2, 2>>, <<2, 1, 4, 4>>, <<2, 3, 4, 4>>}, {1})
     \cup Mk(TimeLoops({0, 2}, {3}), {Poi(1, 1)}, {Single, <<2, 1, 2, 2>>}, {1})
+    \cup Mk(TimeLoops({4}, {2, 3}), {Unthrottled, Det(1, 1)},
+            {ElemPlace(E22, 1, 1, 4), ElemPlace(E22, 2, 0, 4), ElemPlace(E22, 2, 1, 4), ElemPlace(E121, 2, 0, 4), ElemPlace(E121, 2, 1, 4), ElemPlace(E121, 3, 0, 4)}, {1})
+    \cup WithRcLate(Mk(IterLoops({0, 1, 2}, {1, 2}), {Unthrottled, Det(1, 1), Poi(1, 1)}, {Single}, {1}))
+    \cup WithRc(Mk(IterLoops({0, 1}, {2, 3}) \cup TimeLoops({0, 1}, {2, 3}), {Unthrottled, Det(1, 1)}, {Single}, {1}), {1, 2})
 C05ThoroughSvcs == {0, 1, 3}
 
 (* ---- simulation (S2C): wide alphabets, 1 tick = 1 s and 1 tick = 1/4 s ---- *)
@@ -63,8 +91,22 @@ SimConfigs ==
     \cup Mk(IterLoops({0, 2}, {2, 6}) \cup TimeLoops({0, 4, 8}, {6, 12, 24}),
        {Unthrottled, Det(2, 1), Det(1, 1), Poi(4, 1), DetConv(2, 1)},
        {Single, <<2, 1, 2, 0>>, <<2, 1, 2, 4>>, <<2, 3, 4, 8>>}, {4})
+    \* 1 tick = 1/1024 s: clients that come back within the last ticks (< 1 ms) before the next scheduled time
+    \cup Mk(IterLoops({0, 1}, {3, 5, 8}) \cup TimeLoops({0, 512}, {1024, 2048}),
+       {Det(4, 1), Det(2, 1), Det(8, 1)}, {Single, <<2, 0, 2, 0>>, <<2, 1, 2, 0>>, <<4, 1, 4, 0>>}, {1024})
+    \* places derived from element declarations (ramp-up inside a parallel element, over-committed elements)
+    \cup Mk(TimeLoops({4, 8}, {3, 8}), {Unthrottled, Det(1, 1), Det(1, 2)},
+       {ElemPlace(E22, 1, 1, 4), ElemPlace(E22, 2, 0, 4), ElemPlace(E22, 2, 1, 4), ElemPlace(E121, 2, 0, 4), ElemPlace(E121, 3, 0, 4)}, {1})
+    \cup Mk(IterLoops({0, 1}, {2, 5}), {Unthrottled, Det(1, 1)},
+       {ElemPlace(E111over2, 3, 0, 0), ElemPlace(E22over2, 2, 0, 0), ElemPlace(E22over2, 2, 1, 0)}, {1})
+    \* runners with a completion API
+    \cup WithRcLate(Mk(IterLoops({0, 1, 3}, {2, 5}), {Unthrottled, Det(1, 2), Poi(1, 2)}, {Single, <<2, 1, 2, 0>>}, {1}))
+    \cup WithRc(Mk(IterLoops({0, 1, 3}, {2, 5}) \cup TimeLoops({0, 2}, {3, 8}), {Unthrottled, Det(1, 2)}, {Single}, {1}), {2, 3})
 SimSvcs == {0, 1, 2, 3, 5, 9}
 
+Near012 == {0, 1, 2}
+Near0123 == {0, 1, 2, 3}
+NearNone == {}
 D01 == {0, 1}
 D0 == {0}
 W12 == {1, 2}
